@@ -653,6 +653,29 @@ impl Cluster {
         g.nodes[i].sup_q.clear();
     }
 
+    /// SIGINT: the node saves its key map / pending snapshots (safe_shutdown) and exits.
+    pub fn clean_stop_node(&mut self, i: usize) {
+        let mut node = { self.sim.inner.lock().unwrap().nodes[i].node.take().unwrap() };
+        let r = std::panic::catch_unwind(std::panic::AssertUnwindSafe(|| node.safe_shutdown()));
+        {
+            let mut g = self.sim.inner.lock().unwrap();
+            g.nodes[i].node = Some(node);
+            if let Err(e) = r {
+                g.panics.push(format!("safe_shutdown n{}: {}", i, panic_msg(&e)));
+            }
+        }
+        self.note(format!("n{} shuts down cleanly", i));
+        self.kill_node(i);
+    }
+
+    /// Empties the data directory of a stopped node (a new machine / lost disk).
+    pub fn wipe_disk(&mut self, i: usize) {
+        let dir = { self.sim.inner.lock().unwrap().nodes[i].dir.clone() };
+        let _ = std::fs::remove_dir_all(&dir);
+        std::fs::create_dir_all(&dir).unwrap();
+        self.note(format!("n{}'s disk is wiped", i));
+    }
+
     /// Opens a client session on node i; returns its handle.
     pub fn open_session(&mut self, name: &str, i: usize) {
         let tid = self.sim.register(format!("session {} on n{}", name, i), i, Kind::Session);
